@@ -92,6 +92,23 @@ theorem reachable_good_built (n : Nat) (fields : List (AnimField ℚ)) (timeline
     obtain ⟨cfg, hc, rfl⟩ := hcfg m hm
     exact build_tlOK_kind hc)) hrun
 
+/-- states whose timelines are merges (`MergedTimeline::of([...])`, what `animator!` emits for a `[ …, … ]` arm)
+of builder-built timelines over the same struct -/
+def MergedAnimatorCfg (n : Nat) (fields : List (AnimField ℚ)) (timelines : List (Option (Merged ℚ))) : Prop :=
+  ∀ m, some m ∈ timelines → ∃ cfgs : List (Config ℚ), (∀ cfg ∈ cfgs, KindCfg n fields cfg) ∧
+    m = Merged.mk (cfgs.map (Timeline.build fields))
+
+/-- **C04 in full generality for built timelines**: any value kinds, any merges, any history -/
+theorem no_jump_merged_animator (n : Nat) (fields : List (AnimField ℚ)) (timelines : List (Option (Merged ℚ)))
+    (s0 : Nat) (v0 : List (Val ℚ)) (hcfg : MergedAnimatorCfg n fields timelines) (hv0 : KindVals n fields v0)
+    (ops : List (AnimOp ℚ)) (a a' : Animator ℚ) (s : Nat)
+    (hrun : (Animator.new timelines s0 v0).run ops = .ok a) (hset : a.setState s = .ok a') :
+    a'.values = a.values := by
+  apply no_jump_after_any_history (KindVals n fields) timelines s0 v0 hv0 _ ops a a' s hrun hset
+  intro m hm
+  obtain ⟨cfgs, hc, rfl⟩ := hcfg m hm
+  exact build_tlOK_merged cfgs hc
+
 /-! Non-vacuity: a float and a `u8` property, the `u8` one with keyframes 200 → 7. -/
 def exKindCfg : Config ℚ :=
   { easing := .builtin .inOutBack, delay := 0, duration := 3, repeat_ := Repeat.infinite, reverse := false,
